@@ -99,8 +99,10 @@ class Run:
                 d = dict(x.split('=', 1) for x in t[2:])
                 names = split_list(d['names'])
                 kw = dict(p.split(':') for p in split_list(d['kw']))
+                over = split_list(d.get('over', '-'))
                 self.decls.append(('class', int(t[1]), [int(b) for b in split_list(d['bases'])],
-                                   names, kw))
+                                   names, kw, over))
+                meths.update(over)
                 meths.update(names)
                 meths.update(kw.values())
             elif t[0] == 'obj':
@@ -121,11 +123,12 @@ class Run:
     def make_root(self, meths):
         run = self
 
-        def make(mname):
+        def make(mname, where='R'):
             def method(self, *args, **kwargs):
-                run.on_call(self, mname, args, kwargs)
+                run.on_call(self, mname, args, kwargs, where)
             method.__name__ = mname
             return method
+        self.make_method = make
 
         def _hash(self):
             return self._h
@@ -136,10 +139,10 @@ class Run:
     def build(self):
         for d in self.decls:
             if d[0] == 'class':
-                _, cid, bases, names, kw = d
+                _, cid, bases, names, kw, over = d
                 assert cid == len(self.classes)
                 bs = tuple(self.classes[b] for b in bases) or (self.root,)
-                cls = type(f'K{cid}', bs, {})
+                cls = type(f'K{cid}', bs, {m: self.make_method(m, str(cid)) for m in over})
                 cls = event_handler(*names, **kw)(cls)
                 self.classes.append(cls)
             else:
@@ -156,9 +159,9 @@ class Run:
                 self.obs.append(f'events {cid} ' +
                                 (','.join(f'{k}:{v}' for k, v in sorted(ev.items())) or '-'))
 
-    def on_call(self, recv, mname, args, kwargs):
+    def on_call(self, recv, mname, args, kwargs, where='R'):
         oid = None if recv is None else recv._oid
-        self.obs.append(f'{self.prefix}cb {oid} {mname} {self.enc(args, kwargs)}')
+        self.obs.append(f'{self.prefix}cb {oid} {mname}@{where} {self.enc(args, kwargs)}')
         if oid is None:
             return
         k = self.calls.get((oid, mname), 0)
